@@ -65,6 +65,12 @@ GarbleTargets == {"open", "get-running", "get-candidate", "load", "commit", "clo
 GarbleCases == {[target |-> t, index |-> IF t = "load" THEN i ELSE 0, kind |-> "mut:" \o m] :
                    t \in (IF Depth = 0 THEN {"get-running", "get-candidate", "load"} ELSE GarbleTargets), m \in Mutations, i \in 1..2}
 
+(* C02 "for all installed states": states in the ephemeral instance that the agent did not write itself *)
+ForeignShapes == {"extra-term-other-family", "extra-term-no-from", "term-named-differently", "term-without-family",
+                  "two-terms-one-family", "no-trailing-reject", "no-trailing-reject-extra-filters", "term-without-then",
+                  "reject-only", "own-shape"}
+ForeignCases == {[shape |-> sh, target |-> t] : sh \in ForeignShapes, t \in {"same", "other", "empty", "unmarked"}}
+
 Out ==
   CASE Family = "hist"  -> ToJson([cases |-> {[k \in 1..Depth |-> StatusJ(h[k])] : h \in Histories}])
     [] Family = "fault" -> ToJson([cases |-> {c \in FaultCases : FaultOk(c)}])
@@ -72,6 +78,7 @@ Out ==
     [] Family = "c15"   -> ToJson([cases |-> C15Cases])
     [] Family = "shape" -> ToJson([cases |-> ShapeCases])
     [] Family = "garble" -> ToJson([cases |-> GarbleCases])
+    [] Family = "foreign" -> ToJson([cases |-> ForeignCases])
     [] Family = "style" -> ToJson([cases |-> StyleCases])
 ASSUME PrintT(<<"GEN", Out>>)
 VARIABLE dummy
